@@ -12,6 +12,7 @@ import (
 	"iter"
 	"net/http"
 	"net/http/httptest"
+	"os"
 	"sort"
 	"strconv"
 	"strings"
@@ -140,6 +141,7 @@ type world struct {
 	pool    []key
 	handles []handle
 	blocked []chan struct{} // lock probes still waiting for Router.mu
+	lastErr error           // error of the last transaction write
 }
 
 var errBody = errors.New("c04: function returned an error")
@@ -168,7 +170,8 @@ func errOut(err error) string {
 }
 
 // a write through a transaction value
-func (w *world) txnWrite(t *fox.Txn, o wop) error {
+func (w *world) txnWrite(t *fox.Txn, o wop) (err error) {
+	defer func() { w.lastErr = err }()
 	m, p := methods[o.k.m%len(methods)], patterns[o.k.p%len(patterns)]
 	switch o.kind {
 	case "Handle":
@@ -460,16 +463,26 @@ func (w *world) runStep(s step, writerOpen bool) (obs []string) {
 	}
 	wr := s.kind == "Updates"
 	var fin string
+	var returned error
 	started := false
 	fn := func(t *fox.Txn) error {
 		started = true
 		w.handles = append(w.handles, handle{txn: t})
+		var lastErr error
 		for _, b := range s.body {
 			o := w.runBstepNoRecover(b)
 			obs = append(obs, o)
+			if b.kind == "TWrite" && w.lastErr != nil {
+				lastErr = w.lastErr
+			}
 		}
 		switch s.ending {
 		case "RetErr":
+			if lastErr != nil { // the idiomatic `if err != nil { return err }`: fox's own error comes back
+				returned = lastErr
+				return lastErr
+			}
+			returned = errBody
 			return errBody
 		case "PanicV":
 			panic(panicV{})
@@ -501,7 +514,7 @@ func (w *world) runStep(s step, writerOpen bool) (obs []string) {
 		}
 		if err == nil {
 			fin = "OFinNil"
-		} else if errors.Is(err, errBody) {
+		} else if returned != nil && errors.Is(err, returned) {
 			fin = "OFinErr"
 		} else {
 			fin = "(* unexpected error *) OFinBlocked"
@@ -568,9 +581,12 @@ func (g *gen) wop() wop {
 	switch x := g.rnd.Intn(100); {
 	case x < 45:
 		o.kind = "Handle"
+		if o.k == outside { // the probe key is never registered (lock probes must stay harmless)
+			o.k = hx.Pick(g.rnd, g.pool)
+		}
 		if g.rnd.Pct(70) { // prefer a route that is probably absent
 			for i := 0; i < 4 && g.reg[o.k]; i++ {
-				o.k = g.key()
+				o.k = hx.Pick(g.rnd, g.pool)
 			}
 		}
 	case x < 70:
@@ -950,6 +966,9 @@ func main() {
 	seen := map[string]bool{}
 	nontrivial := 0
 	emit := func(g *gen, family string) {
+		// a fatal runtime error (e.g. unlock of an unlocked mutex) cannot be recovered: leave the history
+		// being executed where the check can find it
+		_ = os.WriteFile("c04_current_history.txt", []byte("["+family+"] pool="+hx.ListOf(g.pool, key.coq)+"  "+hx.ListOf(g.steps, step.coq)), 0o644)
 		obs, cut := execute(g.steps, g.pool)
 		steps := g.steps[:cut]
 		term := "(" + hx.ListOf(g.pool, key.coq) + ", " + hx.ListOf(steps, step.coq) + ", " +
@@ -1041,6 +1060,7 @@ func main() {
 	}
 	st.Evaluations = cs.Len()
 	st.DistinctNontrivial = nontrivial
+	os.Remove("c04_current_history.txt")
 	hx.Fatal(cs.Write(out, shards))
 	hx.Fatal(st.Write(out))
 	fmt.Printf("c04: %d histories written to %s\n", cs.Len(), out)
